@@ -16,6 +16,13 @@ claimed = {
          "for all field values, all lengths and any number of topics (ghost offset chains and an axiomatised suffix sum for SUBSCRIBE/UNSUBSCRIBE), and for every value of the packet-id counter. "
          "Full for this property: n == Len(), wire bytes, clean re-encoding = input bytes, decode field values, id != 0."),
    design='DESIGN.md §4 C03', technique='contracts + weakest-precondition VCs over go/ssa, discharged by z3/cvc5 (govc)'),
+ 'C13': dict(level='proof',
+   text=("Contract-based deductive proof of the ack queue: a representation invariant (power-of-two ring, head/tail/count geometry, the id->slot index being exactly the inverse of slot->id on the occupied slots) "
+         "is preserved by newAckqueue, Wait, Ack, Acked, insert, removeHead and grow; against the abstract FIFO view: insert appends (or changes nothing on a duplicate id), grow preserves the view and the key set, "
+         "Ack changes only the state and ack buffer of the entry with that id (nothing for unknown ids), Acked returns the ping answer followed by the maximal terminal prefix of the view, removes exactly those and leaves the rest in order; "
+         "message and ack buffers are fresh allocations whose bytes no queue operation modifies. For all queue sizes, wrap positions and any number of entries (loop invariants, no bound). "
+         "What the buffers contain (wire(msg), n == Len()) is the per-type result of C03; at the Message interface it is assumed."),
+   design='DESIGN.md §4 C13', technique='contracts + representation invariant + loop invariants, VCs over go/ssa discharged by z3/cvc5 (govc)'),
  'C04': dict(level='proof',
    text=("Contract-based deductive proof: every index, slice (also against len, not only cap: 'strictslice'), nil, conversion and overflow obligation in every Decode path is generated with no annotation and discharged; "
          "contracts add 0<=n<=len(src), every returned field lies within src[:n], loop variants (termination), and acceptance of every well-formed packet (for SUBSCRIBE/UNSUBSCRIBE against a caller-chosen ghost entry chain). Unbounded in input length and topic count."),
